@@ -941,6 +941,36 @@ def run_props_timing(ctx, lines, expect):
                     ctx.violation(what="Timing timestamps from a tuple", observed=str(got), required=str(stamps))
                     return
 
+    # timestamp lists that reach a Timing through append(array, timestamps) - receivers with no timestamps yet (the start of a streaming
+    # acquisition), with some, of every class; the caller's list is the caller's: mutating, clearing, reversing or refilling it afterwards
+    # is not seen by the waveform, and the waveform never touches it
+    from nitypes.waveform import AnalogWaveform as _AW, ComplexWaveform as _CW, DigitalWaveform as _DW
+    for cls_, mkarr in ((_AW, lambda n_: np.arange(n_, dtype=np.float64)), (_CW, lambda n_: np.arange(n_).astype(np.complex128)), (_DW, lambda n_: np.zeros((n_, 1), np.uint8))):
+        for have in (0, 2):
+            for seqkind in ("list", "tuple-then-list"):
+                for edit in ("setitem", "clear-refill", "reverse", "append"):
+                    first = [t0 + dt.timedelta(seconds=i) for i in range(have)]
+                    if cls_ is _DW:
+                        w_ = _DW(have, 1, timing=Timing.create_with_irregular_interval(first))
+                    else:
+                        w_ = cls_(have, np.float64 if cls_ is _AW else np.complex128, timing=Timing.create_with_irregular_interval(first), capacity=16)
+                    scratch = [t0 + dt.timedelta(seconds=10 + i) for i in range(3)]
+                    given = scratch if seqkind == "list" else list(tuple(scratch))
+                    want = first + list(given)
+                    r = outcome(lambda: w_.append(mkarr(3), given))
+                    ctx.case(("append-timestamps-list", cls_.__name__, have, seqkind, edit))
+                    if r[0] != "ok":
+                        continue
+                    if edit == "setitem": given[1] = t0 - dt.timedelta(days=1)
+                    elif edit == "clear-refill": given.clear(); given.extend(t0 + dt.timedelta(seconds=100 + i) for i in range(3))
+                    elif edit == "reverse": given.reverse()
+                    else: given.append(t0)
+                    got = outcome(lambda: list(w_.timing.get_timestamps(0, w_.sample_count)))
+                    if got != ("ok", want):
+                        ctx.violation(what="timestamps given to append(array, timestamps) are shared with the caller's list", cls=cls_.__name__, receiver_timestamps=have, caller_edit=edit,
+                                      observed=show(got)[:200], required=str(want)[:200])
+                        return
+
 
 def run_byte_order(ctx):
     """Arrays in the non-native byte order are arrays like any other: copy=False shares the caller's memory (or the call is refused),
